@@ -121,7 +121,7 @@ impl Monitor for Mon {
             }
             v.push(Event::Timer);
             // a staggered start for the next request
-            if w.reqs.len() < self.max_sends {
+            if w.reqs.len() < self.max_sends && !w.just_advanced {
                 v.push(Event::AdvanceTo(w.now + 30 * MS));
             }
         }
